@@ -471,6 +471,11 @@ func outcome(res *core.Result, what string, v refwkb.Verdict, lib wkbadapt.Lib, 
 		if d := mgeom.Diff(obs, obs2); d != "" {
 			return fail("not-canonical", "decode(encode(g)) = %s differs from g = %s: %s", obs2, obs, d)
 		}
+		// well-formed for the whole public API, not only for the raw accessors:
+		// the accepted geometry answers like a freshly built one of its value
+		if d := mgeom.TwinDiff(g); d != "" {
+			return fail("ill-formed", "the accepted geometry is inconsistent: %s", d)
+		}
 		if v.Class != refwkb.COK {
 			res.Count("probe:accepted-after-edit", 1)
 		}
